@@ -78,6 +78,11 @@ type cB struct {
 	Items []cInner  `json:"items"`
 }
 
+type cS struct {
+	A int64  `json:"a"`
+	S string `json:"s,omitempty"`
+}
+
 type cC struct {
 	Label string           `json:"label,omitempty"`
 	Count int64            `json:"count,omitempty"`
@@ -252,7 +257,7 @@ type concOp struct {
 	arg  int64
 }
 
-const concKinds = 10
+const concKinds = 11
 
 type concRun struct {
 	s     *concShared
@@ -501,6 +506,57 @@ func (cr *concRun) runOp(g int, op concOp) (res string) {
 		}
 		_, zoff := t.Zone()
 		return fmt.Sprintf("%s|%d|%d", t.Format(time.RFC3339Nano), zoff, t.UnixNano())
+	case 9: // a file whose records mostly allocate nothing: banks of empty records are closed at once,
+		// the others are retained (with their records) until the whole file is read
+		comp := []avro.Compression{avro.CompressionNull, avro.CompressionDeflate, avro.CompressionSnappy}[v%3]
+		var buf bytes.Buffer
+		enc, err := avro.NewEncoderFor[cS](&buf, comp, 64+int(v%5)*50)
+		if err != nil {
+			return "err:" + err.Error()
+		}
+		n := 3 + int(v%10)
+		want := make([]cS, n)
+		for k := 0; k < n; k++ {
+			want[k] = cS{A: v + int64(k)}
+			if (v>>uint(k%30))&3 == 0 {
+				want[k].S = fmt.Sprintf("g%d-%d-%d", g, v, k)
+			}
+			if err := enc.Encode(&want[k]); err != nil {
+				return "err:" + err.Error()
+			}
+		}
+		if err := enc.Flush(); err != nil {
+			return "err:" + err.Error()
+		}
+		var kept []cS
+		var keptBanks []*avro.ResourceBank
+		err = avro.ReadFile(bytes.NewReader(buf.Bytes()), cS{}, func(val unsafe.Pointer, rb *avro.ResourceBank) error {
+			rec := *(*cS)(val)
+			kept = append(kept, rec)
+			if rec.S == "" {
+				rb.Close()
+			} else {
+				keptBanks = append(keptBanks, rb)
+			}
+			return nil
+		})
+		if err != nil {
+			return "err:" + err.Error()
+		}
+		res = fmt.Sprintf("%d", len(kept))
+		if len(kept) != n {
+			res = fmt.Sprintf("err:%d records delivered, %d written", len(kept), n)
+		}
+		for k := range kept {
+			if k < n && kept[k] != want[k] {
+				res = fmt.Sprintf("err:retained record %d changed while its bank was still open: %s, written %s", k, js(kept[k]), js(want[k]))
+				break
+			}
+		}
+		for _, rb := range keptBanks {
+			rb.Close()
+		}
+		return res
 	default: // re-registration of the library's own codec packages
 		if v%2 == 0 {
 			avrotime.RegisterCodecs()
